@@ -369,3 +369,221 @@ pub fn numeric(r: &mut Rng, base: &str) -> (String, &'static str) {
         }
     }
 }
+
+// ---- G7: the type language through the compiler ---------------------------------------------------
+// Parser-accepted, mostly type-correct programs made of type aliases (generic, recursive, unions,
+// tuples with positional and named fields, partial types, type spreads over aliases in tuple AND
+// partial types, intersections, function and process types) used in alias, parameter, return,
+// pattern and receive positions, with at most one mutation (unresolved alias, missing field name,
+// duplicate field, wrong type-argument arity, constructor-less cycle, spread of a non-tuple).
+
+pub struct Alias {
+    name: String,
+    arity: usize,
+    /// does it resolve to tuple-like types only (a sensible spread target)?
+    tuple_like: bool,
+    /// a single tuple/partial whose fields are all named (the ordinary spread target)
+    all_named: bool,
+}
+
+fn alias_ref(r: &mut Rng, a: &Alias, generic_param: bool) -> String {
+    if a.arity == 0 {
+        format!("'{}", a.name)
+    } else {
+        let arg = if generic_param && r.chance(1, 2) { "'e".to_string() } else { r.pick(&["'int", "'bin", "[]", "A"]).to_string() };
+        format!("'{}<{}>", a.name, arg)
+    }
+}
+
+fn field_name(r: &mut Rng) -> &'static str {
+    *r.pick(&["x", "y", "z", "tag", "head", "tail", "value"])
+}
+
+fn tleaf(r: &mut Rng, aliases: &[Alias], generic_param: bool) -> String {
+    match r.below(12) {
+        0..=2 => "'int".into(),
+        3 => "'bin".into(),
+        4 => "[]".into(),
+        5 => "A".into(),
+        6 => "'ref".into(),
+        7 if generic_param => "'e".into(),
+        _ => {
+            if aliases.is_empty() {
+                "'int".into()
+            } else {
+                let a = &aliases[r.usize(aliases.len())];
+                alias_ref(r, a, generic_param)
+            }
+        }
+    }
+}
+
+fn spread(r: &mut Rng, aliases: &[Alias], generic_param: bool) -> Option<String> {
+    // mostly the ordinary case (all-named single tuple), sometimes positional / union / anything
+    let strict = !r.chance(1, 4);
+    let c: Vec<&Alias> = aliases.iter().filter(|a| if strict { a.all_named } else { a.tuple_like || r.chance(1, 6) }).collect();
+    if c.is_empty() {
+        return None;
+    }
+    let a = c[r.usize(c.len())];
+    Some(format!("...{}", alias_ref(r, a, generic_param)))
+}
+
+/// A tuple-like type (tuple / named tuple / partial, possibly with a spread).
+fn ttuple(r: &mut Rng, aliases: &[Alias], d: usize, gp: bool) -> String {
+    let sub = |r: &mut Rng| if d == 0 { tleaf(r, aliases, gp) } else { gen_type(r, aliases, d - 1, gp) };
+    let named = |r: &mut Rng| format!("{}: {}", field_name(r), sub(r));
+    match r.below(16) {
+        0 => format!("[{}, {}]", sub(r), sub(r)),
+        1 => format!("[{}, {}]", named(r), named(r)),
+        2 => format!("P[{}]", sub(r)),
+        3 => format!("Q[{}, {}]", named(r), named(r)),
+        4 => format!("({})", named(r)),
+        5 => format!("P({}, {})", named(r), named(r)),
+        6 => "()".into(),
+        7 => format!("[{}, {}]", sub(r), named(r)),
+        // spreads
+        8 => match spread(r, aliases, gp) { Some(s) => format!("[{s}, {}]", named(r)), None => format!("[{}]", sub(r)) },
+        9 => match spread(r, aliases, gp) { Some(s) => format!("R[{s}]"), None => "R".into() },
+        10 => match spread(r, aliases, gp) { Some(s) => format!("({s}, {})", named(r)), None => format!("({})", named(r)) },
+        11 => match spread(r, aliases, gp) { Some(s) => format!("P({s}, {})", named(r)), None => format!("P({})", named(r)) },
+        12 => match spread(r, aliases, gp) { Some(s) => format!("[{}, {s}]", sub(r)), None => format!("[{}]", sub(r)) },
+        13 => {
+            // 'alias[..., extra]
+            let c: Vec<&Alias> = aliases.iter().filter(|a| a.tuple_like && a.arity == 0).collect();
+            if c.is_empty() { format!("[{}]", sub(r)) } else { format!("'{}[..., {}]", c[r.usize(c.len())].name, named(r)) }
+        }
+        14 => match (spread(r, aliases, gp), spread(r, aliases, gp)) { (Some(a), Some(b)) => format!("({a}, {b}, {})", named(r)), _ => "()".into() },
+        _ => format!("P[{}, {}]", sub(r), sub(r)),
+    }
+}
+
+pub fn gen_type(r: &mut Rng, aliases: &[Alias], d: usize, gp: bool) -> String {
+    if d == 0 {
+        return tleaf(r, aliases, gp);
+    }
+    match r.below(14) {
+        0..=5 => ttuple(r, aliases, d, gp),
+        6 => format!("({} | {})", gen_type(r, aliases, d - 1, gp), gen_type(r, aliases, d - 1, gp)),
+        7 => format!("(A | B[{}] | {})", gen_type(r, aliases, d - 1, gp), ttuple(r, aliases, d - 1, gp)),
+        8 => format!("({} & {})", ttuple(r, aliases, d - 1, gp), ttuple(r, aliases, d - 1, gp)),
+        9 => format!("(#{} -> {})", gen_type(r, aliases, d - 1, gp), gen_type(r, aliases, d - 1, gp)),
+        10 => format!("@{}", tleaf(r, aliases, gp)),
+        11 => format!("(@{} -> {})", tleaf(r, aliases, gp), tleaf(r, aliases, gp)),
+        12 => "(@-> 'int)".into(),
+        _ => tleaf(r, aliases, gp),
+    }
+}
+
+pub fn typed_program(r: &mut Rng) -> (String, &'static str) {
+    let mut aliases: Vec<Alias> = vec![];
+    let mut lines: Vec<String> = vec![];
+    let n_alias = 1 + r.usize(5);
+    for i in 0..n_alias {
+        let name = format!("t{i}");
+        let arity = if r.chance(1, 4) { 1 } else { 0 };
+        let gp = arity == 1;
+        let params = if gp { "<'e>" } else { "" };
+        let mut all_named = false;
+        let (body, tuple_like) = match r.below(12) {
+            10 | 11 => {
+                all_named = true;
+                (format!("Rec[x: {}, y: {}]", tleaf(r, &aliases, gp), tleaf(r, &aliases, gp)), true)
+            }
+            // recursive union through a constructor
+            0 => {
+                let me = if gp { format!("'{name}<'e>") } else { format!("'{name}") };
+                (format!("Nil | Cons[{}, {me}]", if gp { "'e" } else { "'int" }), true)
+            }
+            1 => (format!("A[{}] | B[x: {}] | C", tleaf(r, &aliases, gp), tleaf(r, &aliases, gp)), true),
+            2 => (format!("Pair[{}, {}]", tleaf(r, &aliases, gp), tleaf(r, &aliases, gp)), true),
+            3 => {
+                all_named = true;
+                (format!("Rec[x: {}, y: {}]", tleaf(r, &aliases, gp), tleaf(r, &aliases, gp)), true)
+            }
+            4 => {
+                all_named = true;
+                (format!("(x: {})", tleaf(r, &aliases, gp)), true)
+            }
+            5 | 6 => {
+                let d = 1 + r.usize(2);
+                (ttuple(r, &aliases, d, gp), true)
+            }
+            _ => {
+                let d = 1 + r.usize(3);
+                (gen_type(r, &aliases, d, gp), false)
+            }
+        };
+        lines.push(format!("'{name}{params} = {body}"));
+        aliases.push(Alias { name, arity, tuple_like, all_named });
+    }
+    let uses = 1 + r.usize(3);
+    for k in 0..uses {
+        let d = 1 + r.usize(3);
+        let t = gen_type(r, &aliases, d, false);
+        let u = gen_type(r, &aliases, 1, false);
+        lines.push(match r.below(9) {
+            0 => format!("f{k} = #{} {{ $ }}", if t.starts_with('(') || t.starts_with('\'') || t.starts_with('[') { t.clone() } else { format!("({t})") }),
+            1 => format!("g{k} = #({t}) -> {} {{ $ }}", if u.starts_with('(') || u.starts_with('\'') || u.starts_with('[') { u.clone() } else { format!("({u})") }),
+            2 => format!("h{k} = #'int {{ $ ~> =({t}) }}"),
+            3 => format!("m{k} = #'int {{ ({t})z = $, z }}"),
+            4 => format!("p{k} = @({t}) {{ $ }}"),
+            5 => format!("r{k} = #{{ !#({t}) }}"),
+            6 => format!("s{k} = #<'e>[({t}), 'e] -> 'e {{ $.1 }}"),
+            7 => format!("w{k} = #({t}) {{ | =({u}) => 1 | 2 }}"),
+            _ => format!("k{k} = #[({t}), ({u})] {{ $.0 }}"),
+        });
+    }
+    let mut src = lines.join("\n");
+    // at most one mutation
+    let how = match r.below(12) {
+        0 => {
+            // unresolved alias
+            if let Some(p) = src.find("'t") {
+                src.replace_range(p..p + 3, "'nope");
+            }
+            "unresolved-alias"
+        }
+        1 => {
+            // drop one field name (`x: ` → ``)
+            let names = ["x: ", "y: ", "z: ", "tag: ", "head: ", "tail: ", "value: "];
+            let hits: Vec<(usize, usize)> = names.iter().flat_map(|n| src.match_indices(n).map(|(i, m)| (i, m.len())).collect::<Vec<_>>()).collect();
+            if !hits.is_empty() {
+                let (i, l) = hits[r.usize(hits.len())];
+                src.replace_range(i..i + l, "");
+            }
+            "missing-field-name"
+        }
+        2 => {
+            // duplicate a named field
+            if let Some(p) = src.find("x: ") {
+                src.insert_str(p, "x: 'int, ");
+            }
+            "duplicate-field"
+        }
+        3 => {
+            src = src.replace("<'int>", "<'int, 'bin>");
+            "wrong-arity"
+        }
+        4 => {
+            lines.push("'loop = 'loop".into());
+            src = format!("'loop = 'loop\n{src}\nq = #'loop {{ $ }}");
+            "constructorless-cycle"
+        }
+        5 => {
+            src = format!("'aa = 'bb\n'bb = 'aa\n{src}\nq = #('aa) {{ $ }}");
+            "mutual-cycle"
+        }
+        6 => {
+            src = src.replacen("...'t", "...'int", 1);
+            "spread-of-non-tuple"
+        }
+        7 => {
+            // generic used without arguments / non-generic with arguments
+            if src.contains("<'int>") { src = src.replacen("<'int>", "", 1) } else { src = src.replacen("'t0", "'t0<'int>", 1) }
+            "wrong-arity"
+        }
+        _ => "as-generated",
+    };
+    (src, how)
+}
